@@ -68,3 +68,32 @@ Fixpoint ll_run (nodes : list nat) (ops : list ll_op) : list (list nat * option 
 
 (* ---------- Random: nodes[rand.IntN(len(nodes))]; r is the value rand.IntN returned ---------- *)
 Definition random_next (nodes : list nat) (r : nat) : option nat := nth_error nodes r.
+
+(* Lock discipline.  Every balancer method runs entirely under the balancer's mutex (Lock ... defer
+   Unlock), so a Set and a Next are each ONE atomic step on the state: any execution by any number of
+   goroutines is a sequential history of such steps, which is what rr_run / ll_run / rnd_run range
+   over.  For Random that means: the length passed to rand.IntN and the slice indexed are the ones of
+   the same step.  [draw] is the function rand.IntN computes on the length it is given (any function
+   with draw n < n for n > 0). *)
+Inductive rnd_op := RndNext (draw : nat -> nat) | RndSet (nodes : list nat).
+Definition rnd_step (nodes : list nat) (op : rnd_op) : list nat * option (option nat) :=
+  match op with
+  | RndNext draw => (nodes, Some (random_next nodes (draw (length nodes))))
+  | RndSet ns => (ns, None)
+  end.
+Fixpoint rnd_run (nodes : list nat) (ops : list rnd_op) : list (list nat * option (option nat)) :=
+  match ops with
+  | [] => []
+  | op :: ops' => let (s', o) := rnd_step nodes op in (nodes, o) :: rnd_run s' ops'
+  end.
+
+(* a Next split into two critical sections (read the size; later index) is NOT one atomic step: a Set
+   may come in between.  State: the list, and the index a reader holds between its two sections. *)
+Inductive split_op := SpSize (draw : nat -> nat) | SpIndex | SpSet (nodes : list nat).
+Definition split_step (st : list nat * option nat) (op : split_op) : (list nat * option nat) * option (option nat) :=
+  match op, st with
+  | SpSize draw, (nodes, _) => ((nodes, Some (draw (length nodes))), None)
+  | SpIndex, (nodes, Some i) => ((nodes, None), Some (nth_error nodes i))
+  | SpIndex, (nodes, None) => ((nodes, None), None)
+  | SpSet ns, (_, held) => ((ns, held), None)
+  end.
